@@ -228,7 +228,9 @@ func randomSrc(r *rand.Rand) src {
 	b := bounds[r.Intn(len(bounds))]
 	d := int64(r.Intn(9) - 4)
 	v := new(big.Int).Add(b, big.NewInt(d))
-	switch r.Intn(14) {
+	switch r.Intn(15) {
+	case 14:
+		return srcS(randomBoolWord(r))
 	case 0:
 		if fitsI64(v) {
 			return srcI(v.Int64())
@@ -342,6 +344,33 @@ func randomSrc(r *rand.Rand) src {
 	default:
 		return srcF(stepFloat(nearestFloat(v), r.Intn(9)-4))
 	}
+}
+
+// boolean words: every spelling strconv.ParseBool takes, the words other
+// parsers take, near misses - in every casing, now and then padded
+var boolWords = []string{"1", "0", "t", "f", "true", "false", "on", "off", "yes", "no", "y", "n", "enable", "disabled", "2", "tru", "of", "nope", "00", "01", "-1", "-0", "+1", "1.0"}
+
+func randomBoolWord(r *rand.Rand) string {
+	w := boolWords[r.Intn(len(boolWords))]
+	switch r.Intn(5) {
+	case 0: // as it is
+	case 1:
+		w = strings.ToUpper(w)
+	case 2:
+		w = strings.ToUpper(w[:1]) + w[1:]
+	default:
+		b := []byte(w)
+		for i := range b {
+			if r.Intn(2) == 0 {
+				b[i] = strings.ToUpper(string(b[i]))[0]
+			}
+		}
+		w = string(b)
+	}
+	if r.Intn(8) == 0 {
+		w = []string{" ", "\t", ""}[r.Intn(3)] + w + []string{" ", "\n", ""}[r.Intn(3)]
+	}
+	return w
 }
 
 // ---------------------------------------------------------------------------
